@@ -40,6 +40,8 @@ def be_value(E, st, zs):
     t = BE(zs)
     st.fact(t >= 0)
     st.fact(z3.Implies(z3.Length(zs) == 0, t == 0))
+    for k in (1, 2, 4, 8, 12, 16, 20, 24, 28, 32, 48, 56, 57, 64, 66):
+        st.fact(z3.Implies(z3.Length(zs) == k, t < 256 ** k))      # the value of k bytes is below 256**k
     if E.options.get('int_lemmas') is not None:
         # opt-in ground facts of base-256 positional notation: range by length, lower bound by a non-zero leading
         # digit, and injectivity on strings of one length (i2osp is the left inverse of be)
@@ -944,6 +946,8 @@ def value_attr(E, st, base, attr):
         if attr == 'args':
             return tuple(base.args)
         return _MISSING
+    if isinstance(base, BuiltinV) and attr == '__name__':
+        return base.name            # native function values (contracts/rawapi.py) carry their C name, as ctypes function pointers do
     if isinstance(base, FrozenDict):
         def fdm(E, st, a, k):
             if attr == 'get':
@@ -1122,6 +1126,9 @@ def m_bit_length(E, st, base, a, k):
         # opt-in: the defining inequality of int.bit_length() (Python docs): 2**(k-1) <= abs(x) < 2**k for x != 0
         ax = z3.If(x < 0, -x, x)
         st.fact(z3.Implies(x != 0, z3.And(ops.pow2(E, st, t - 1) <= ax, ax < ops.pow2(E, st, t))))
+    for kk in E.options.get('bitlen_thresholds') or ():
+        # opt-in ground instances of the same definition at constant thresholds: bit_length(x) > k  <=>  abs(x) >= 2**k
+        st.fact((t > kk) == (z3.If(x < 0, -x, x) >= 2 ** kk))
     return val(st, mk_int(t))
 
 
